@@ -206,6 +206,8 @@ def _sched(shard):
 CONF_SCRIPT = r"""
 import json, sys, os
 sys.path.insert(0, os.environ.get('VERIF_ROOT', '/verif'))
+from mc import framework as _fw
+_fw.pin_env("16")
 import numpy as np, numba
 from speckit import core
 from mc import records
@@ -268,6 +270,8 @@ def _conf(shard):
 CONF_ANA = r"""
 import json, sys, os
 sys.path.insert(0, os.environ.get('VERIF_ROOT', '/verif'))
+from mc import framework as _fw
+_fw.pin_env("16")
 import numpy as np, numba, logging
 logging.disable(logging.CRITICAL)
 from mc import records
